@@ -98,9 +98,9 @@ pub fn check(e: &Expr) -> Verdict {
 /// consequence: an expression and its rendering evaluate identically
 fn check_eval(e: &Expr, facts: &Value) -> Verdict {
     let text = e.to_string();
-    let back = match Expr::parse(&text) {
-        Ok(b) => b,
-        Err(_) => return Ok(()), // reported by `check`
+    let back = match crate::core::parse_guarded(&text) {
+        Some(Ok(b)) => b,
+        _ => return Ok(()), // reported by `check`
     };
     let a = catch(|| block_on_bounded(e.evaluate(facts), 4));
     let b = catch(|| block_on_bounded(back.evaluate(facts), 4));
@@ -448,9 +448,9 @@ pub fn run(ctx: &Ctx) {
 pub fn replay(j: &serde_json::Value) -> Option<Verdict> {
     if j.get("tree").is_none() {
         if let Some(t) = j.get("source_text").and_then(|t| t.as_str()) {
-            return Some(match Expr::parse(t) {
-                Ok(e) => check(&e),
-                Err(_) => Ok(()),
+            return Some(match crate::core::parse_guarded(t) {
+                Some(Ok(e)) => check(&e),
+                _ => Ok(()),
             });
         }
     }
